@@ -38,7 +38,7 @@ pub fn impl_ebml_specification(original: &mut ItemEnum) -> Result<TokenStream> {
 
     let map: HashMap<_, _> = input.variants.iter().map(|var|(&var.ident, var)).collect();
     for origin in &input.variants {
-        if !matches!(origin.data_type_attr.0, TagDataType::Master) && origin.path_attr.is_some() {
+        if origin.path_attr.is_some() {
             validate_path(origin, &map)?;
         }
     }
@@ -58,9 +58,9 @@ fn validate_path(origin: &crate::ast::Variant, variants_map: &HashMap<&Ident, &c
     // Only validate the element if it has a path attribute
     if let Some(path_parts) = origin.path_attr.as_ref().map(|(path, _)| &path.parts) {
         // Only validate if there is a specific parent element
-        if let Some(parent) = path_parts.iter().rev().filter_map(|p| {
+        if let Some((parent_index, parent)) = path_parts.iter().enumerate().rev().filter_map(|(i, p)| {
             if let PathPart::Ident(ident) = p {
-                Some(ident)
+                Some((i, ident))
             } else {
                 None
             }
@@ -68,6 +68,12 @@ fn validate_path(origin: &crate::ast::Variant, variants_map: &HashMap<&Ident, &c
             let parent = *variants_map.get(parent).unwrap();
             if parent.data_type_attr.0 != Master {
                 return Err(Error::new_spanned(parent.original, "Parents must be of Master type"))
+            }
+
+            // The path has to be the parent's own path followed by the parent (and optionally a global placeholder)
+            let parent_path_len = parent.path_attr.as_ref().map_or(0, |(parent_path, _)| parent_path.parts.len());
+            if parent_index != parent_path_len {
+                return Err(Error::new_spanned(origin.original, format!("Path of [{}] did not align with parent [{}] path.", origin.ident, parent.ident)));
             }
 
             if let Some((parent_path, _)) = parent.path_attr.as_ref() {
